@@ -108,8 +108,11 @@ class MiniEval:
                 if r[0] != "fall":
                     return r
                 continue
-            if isinstance(st, ast.Assign) and len(st.targets) == 1:
-                self.assign(st.targets[0], self.ev(st.value, env), env)
+            if isinstance(st, ast.Assign):
+                # `a = b = value`: the value is evaluated once and bound to the targets from left to right
+                val_ = self.ev(st.value, env)
+                for t_ in st.targets:
+                    self.assign(t_, val_, env)
                 continue
             if isinstance(st, ast.AnnAssign):
                 if st.value is not None:
